@@ -12,6 +12,7 @@ import (
 	"net/url"
 	"os"
 	"runtime"
+	"sort"
 	"strconv"
 	"strings"
 	"sync"
@@ -873,4 +874,92 @@ func TestC20ConcurrentLogging(t *testing.T) {
 		hx.NonTrivial(fmt.Sprintf("conc|%s|%d", format, G))
 		hx.Class("concurrent-logging")
 	})
+}
+
+// ---------------------------------------------------------------------------
+// a fault of the log target (disk full, pipe closed) is the log's problem, not
+// the requests': every request still completes unaltered, and once the target
+// works again every completed request gets its line
+
+type faultyWriter struct {
+	mu     sync.Mutex
+	n      int
+	failAt map[int]bool
+	lines  []string
+}
+
+func (w *faultyWriter) Write(p []byte) (int, error) {
+	w.mu.Lock()
+	defer w.mu.Unlock()
+	w.n++
+	if w.failAt[w.n] {
+		return 0, errors.New("injected: no space left on device")
+	}
+	w.lines = append(w.lines, string(p))
+	return len(p), nil
+}
+
+func TestC20LogTargetFaults(t *testing.T) {
+	hx.Check(t, hx.Scale(300, 5000), func(t *rapid.T) {
+		n := rapid.IntRange(2, 8).Draw(t, "requests")
+		w := &faultyWriter{failAt: map[int]bool{}}
+		for i := 1; i <= n; i++ {
+			if rapid.IntRange(0, 3).Draw(t, "write-fails") == 0 {
+				w.failAt[i] = true
+			}
+		}
+		l, err := logger.New(w, "$request_uri $response_status")
+		if err != nil {
+			t.Fatal(err)
+		}
+		p := &proxy.HTTPProxy{
+			Transport: cannedRT{200, "hello"},
+			Lookup: func(r *http.Request) *route.Target {
+				return &route.Target{Service: "svc", URL: &url.URL{Scheme: "http", Host: "backend", Path: "/"}}
+			},
+			Logger: l,
+		}
+		var want []string
+		for i := 1; i <= n; i++ {
+			rec := httptest.NewRecorder()
+			req := httptest.NewRequest("GET", fmt.Sprintf("http://example.com/r%d", i), nil)
+			req.RemoteAddr = "192.0.2.1:1234"
+			done := make(chan struct{})
+			go func() {
+				defer close(done)
+				p.ServeHTTP(rec, req)
+			}()
+			select {
+			case <-done:
+			case <-time.After(5 * time.Second):
+				t.Fatalf("request %d of %d never completed; the log target failed on writes %v", i, n, keysOf(w.failAt))
+			}
+			hx.Eval()
+			if rec.Code != 200 || rec.Body.String() != "hello" {
+				t.Fatalf("request %d altered: %d %q; the log target failed on writes %v", i, rec.Code, rec.Body.String(), keysOf(w.failAt))
+			}
+			if !w.failAt[i] {
+				want = append(want, req.RequestURI+" 200\n")
+			}
+		}
+		w.mu.Lock()
+		got := append([]string{}, w.lines...)
+		w.mu.Unlock()
+		if strings.Join(got, "") != strings.Join(want, "") {
+			t.Fatalf("log lines %q, want %q (one per completed request whose write succeeded); the log target failed on writes %v", got, want, keysOf(w.failAt))
+		}
+		if len(w.failAt) > 0 && !w.failAt[n] {
+			hx.NonTrivial(fmt.Sprintf("faults|%d|%v", n, keysOf(w.failAt)))
+			hx.Class("log-target-fault-then-more-requests")
+		}
+	})
+}
+
+func keysOf(m map[int]bool) []int {
+	var out []int
+	for k := range m {
+		out = append(out, k)
+	}
+	sort.Ints(out)
+	return out
 }
